@@ -290,9 +290,41 @@ def t07_subr(run, fx):
                 b.path, key_space, fd_space), b.loc(t), ledger="idspace")
 
 
+def t07_bias(run, fx):
+    rule = "T07-BIAS"
+    run.rule(rule, "subroutine INDEXes are rebuilt with exactly as many entries as the source INDEX: the callsubr/callgsubr bias is a step "
+                   "function of the entry count and the retained charstrings are not rewritten, so the element count of every "
+                   "vec![Vec::new(); n] that becomes a rebuilt subr INDEX is len() of the source INDEX, unmodified")
+    n = 0
+    for b in fx.bodies:
+        if b.root not in ("cff::subset::rebuild_global_subr_index", "cff::subset::rebuild_local_subr_indices"):
+            continue
+        prov = sym.Prov(b)
+        for bi, t in b.calls():
+            p = t["callee"].get("path") or ""
+            if not p.endswith("vec::from_elem"):
+                continue
+            ga = t["callee"].get("args") or []
+            if not ga or "Vec<u8>" not in ga[0]:
+                continue        # vec![None; ..] of the per-font slots is not an INDEX
+            n += 1
+            cnt = sym.strip(prov.op(t["args"][1]))
+            where = b.root.split("::")[-1]
+            if cnt[0] == "call" and (cnt[4] or cnt[1] or "").endswith("::len") and not any(
+                    x[0] == "call" and (x[4] or x[1] or "").endswith(("::min", "::max", "::saturating_sub", "::checked_sub")) for x in sym.walk(cnt)) and not any(
+                    x[0] == "bin" for x in sym.walk(cnt)):
+                run.ok(rule, "%s: destination INDEX has len() of the source INDEX entries" % where)
+            else:
+                run.fail(rule, "bias:%s" % where, "%s sizes the rebuilt subr INDEX with %s instead of the source INDEX's len(): the subroutine bias of the "
+                         "subset font differs from the source and retained charstrings call the wrong subroutines" % (where, sym.show(cnt)[:80]), b.loc(t))
+    if n < 2:
+        run.anchor_missing(rule, "vec![Vec::new(); n] in rebuild_global_subr_index / rebuild_local_subr_indices (found %d)" % n)
+
+
 def check(run, fx, tier, floors=True):
     if floors or any(callee_is(t, "cff::subset::rebuild_local_subr_indices") for b in fx.bodies for _, t in b.calls()):
         t07_subr(run, fx)
+        t07_bias(run, fx)
     t07_id(run, fx, floors)
     t07_map(run, fx)
     if floors or fx.body("tables::glyf::GlyfRecord::<'a>::is_composite") is not None:
